@@ -541,7 +541,7 @@ func (c *XAConn) ShouldBeHeld() bool {
 func (c *XAConn) checkTimeout(ctx context.Context, now time.Time) error {
 	// a zero timeout means none is configured (InitXA has not run): it must not expire every branch
 	if xaConnTimeout > 0 && now.Sub(c.branchRegisterTime) > xaConnTimeout {
-		c.XaRollback(ctx, c.xaBranchXid)
+		// (the caller rolls the branch back: commitErrorHandle)
 		return fmt.Errorf("XA branch timeout error xid:%s", c.txCtx.XID)
 	}
 	return nil
